@@ -480,3 +480,86 @@ Proof.
   unfold tail_limit. rewrite p_limit_print.
   rewrite g_cols_gitems, g_win_gitems. cbn [ident tval]. destruct st. reflexivity.
 Qed.
+
+(* ---------- keyword spelling (case) is irrelevant to the reference parser ---------- *)
+Lemma canon_spell : forall t, is_canon t = true -> canon (spell t) = t.
+Proof.
+  intros [ty v] H. unfold is_canon, canon, spell in *. simpl in *.
+  destruct (is_kw_type ty) eqn:K; simpl in *.
+  - rewrite K. destruct v; [reflexivity|discriminate].
+  - rewrite K. reflexivity.
+Qed.
+
+Lemma map_canon_spell : forall l, forallb is_canon l = true -> map canon (map spell l) = l.
+Proof.
+  induction l as [|t l IH]; simpl; intro H; [reflexivity|]. apply andb_prop in H. destruct H as [H1 H2].
+  rewrite (canon_spell _ H1), (IH H2). reflexivity.
+Qed.
+
+Lemma canon_kw : forall k, is_canon (kw k) = true.
+Proof. intro k. unfold is_canon, kw. simpl. apply Bool.orb_true_r. Qed.
+
+Lemma canon_pr_sep : forall {A : Type} (pr : A -> list token) sepT xs, is_canon sepT = true ->
+  (forall x, In x xs -> forallb is_canon (pr x) = true) -> forallb is_canon (pr_sep pr sepT xs) = true.
+Proof.
+  induction xs as [|x xs IH]; intros Hs H; [reflexivity|]. simpl. rewrite forallb_app.
+  rewrite (H x (or_introl eq_refl)). simpl. destruct xs as [|y xs']; [reflexivity|].
+  cbn [forallb]. rewrite Hs. apply IH; [exact Hs|]. intros z Hz. apply H. right. exact Hz.
+Qed.
+
+Lemma canon_pr_clause : forall k b, forallb is_canon k = true -> forallb is_canon b = true -> forallb is_canon (pr_clause k b) = true.
+Proof. intros k b Hk Hb. destruct b; [reflexivity|]. unfold pr_clause. rewrite forallb_app, Hk, Hb. reflexivity. Qed.
+
+Lemma canon_pr_alias : forall a, forallb is_canon (pr_alias a) = true.
+Proof. intros [x|]; reflexivity. Qed.
+
+Lemma print0_canon : forall st, wf_stmt st = true -> forallb is_canon (print0 st) = true.
+Proof.
+  intros st W. unfold wf_stmt in W.
+  apply andb_prop in W. destruct W as [W Wopt]. apply andb_prop in W. destruct W as [W Wwin].
+  apply andb_prop in W. destruct W as [W Whav]. apply andb_prop in W. destruct W as [W Wwh].
+  apply andb_prop in W. destruct W as [W Wj]. apply andb_prop in W. destruct W as [Wne Wit].
+  rewrite print0_eq.
+  assert (A1 : forallb is_canon (if s_distinct st then [kw T_DISTINCT] else []) = true) by (destruct (s_distinct st); reflexivity).
+  assert (A2 : forallb is_canon (pr_sep pr_item t_comma (s_items st)) = true).
+  { apply canon_pr_sep; [reflexivity|]. intros i Hi. rewrite forallb_forall in Wit. specialize (Wit _ Hi).
+    unfold wf_expr in Wit. apply andb_prop in Wit. destruct Wit as [Wi _]. apply andb_prop in Wi. destruct Wi as [Wi _].
+    apply andb_prop in Wi. destruct Wi as [_ Wi]. unfold pr_item. rewrite forallb_app, Wi, canon_pr_alias. reflexivity. }
+  assert (A3 : forallb is_canon (concat (map pr_join (s_joins st))) = true).
+  { clear. induction (s_joins st) as [|[lf tb al on] js IH]; [reflexivity|]. simpl concat. rewrite forallb_app, IH.
+    unfold pr_join. cbn [j_left j_table j_alias j_on]. rewrite forallb_app. cbn [forallb]. rewrite forallb_app. cbn [forallb].
+    rewrite canon_pr_alias.
+    assert (X : forallb is_canon (pr_sep pr_pair (kw T_AND) on) = true) by (apply canon_pr_sep; [reflexivity|intros [a b] _; reflexivity]).
+    rewrite X. destruct lf; reflexivity. }
+  assert (A4 : forallb is_canon (tail_where st) = true).
+  { unfold tail_where, tail_group, tail_having, tail_with, tail_order, tail_limit. rewrite !forallb_app.
+    unfold wf_cond in Wwh, Whav. apply andb_prop in Wwh. destruct Wwh as [Wwh _]. apply andb_prop in Whav. destruct Whav as [Whav _].
+    rewrite (canon_pr_clause [kw T_WHERE] _ eq_refl Wwh), (canon_pr_clause [kw T_HAVING] _ eq_refl Whav).
+    rewrite (canon_pr_clause [kw T_GROUP; kw T_BY]); [|reflexivity|].
+    2:{ apply canon_pr_sep; [reflexivity|]. intros [c|[k ps]] Hg; [reflexivity|]. simpl. unfold pr_win. cbn [w_kind w_params forallb].
+        rewrite canon_kw. cbn [andb]. rewrite forallb_app.
+        assert (Wp : wf_win (mkWin k ps) = true).
+        { unfold gitems in Hg. apply in_app_or in Hg. destruct Hg as [Hg|Hg].
+          - apply in_map_iff in Hg. destruct Hg as [c [E _]]. discriminate.
+          - destruct (s_window st) as [w0|]; [|destruct Hg]. destruct Hg as [E|[]]. inversion E; subst. exact Wwin. }
+        unfold wf_win in Wp. cbn [w_kind w_params] in Wp. apply andb_prop in Wp. destruct Wp as [_ Wp].
+        rewrite (canon_pr_sep (fun p : token => [p]) t_comma ps eq_refl); [reflexivity|].
+        intros p Hp. rewrite forallb_forall in Wp. specialize (Wp _ Hp). cbn [forallb]. rewrite Bool.andb_true_r.
+        unfold is_canon. unfold ty_is in Wp. apply Bool.orb_true_iff in Wp. destruct Wp as [Wp|Wp]; apply N.eqb_eq in Wp; rewrite Wp; reflexivity. }
+    rewrite (canon_pr_clause [kw T_WITH; t_lp]); [|reflexivity|].
+    2:{ unfold with_body. destruct (s_with st) as [|o ws]; [reflexivity|]. rewrite forallb_app.
+        rewrite (canon_pr_sep pr_opt t_comma (o :: ws) eq_refl); [reflexivity|]. intros [k v] _. unfold pr_opt. cbn [forallb fst snd]. rewrite canon_kw. reflexivity. }
+    rewrite (canon_pr_clause [kw T_Order; kw T_BY]); [|reflexivity|].
+    2:{ apply canon_pr_sep; [reflexivity|]. intros [c d] _. destruct d; reflexivity. }
+    destruct (s_limit st); reflexivity. }
+  cbn [forallb]. rewrite !forallb_app. cbn [forallb]. rewrite !forallb_app.
+  rewrite A1, A2, A3, A4, canon_pr_alias. reflexivity.
+Qed.
+
+Theorem parse_print_ref : forall st, wf_stmt st = true -> parse_ref (print st) = Some st.
+Proof.
+  intros st W. unfold parse_ref, print. rewrite (map_canon_spell _ (print0_canon _ W)). apply parse_print_core. exact W.
+Qed.
+
+Theorem parse_ref_case : forall st toks, wf_stmt st = true -> map canon toks = map canon (print st) -> parse_ref toks = Some st.
+Proof. intros st toks W E. unfold parse_ref. rewrite E. apply (parse_print_ref st W). Qed.
